@@ -9,6 +9,9 @@ VCtor(ev) ==
   LET cls == ev[2] a == ev[4] o == ev[5] again == IF Len(ev) >= 6 THEN ev[6] ELSE <<>> IN
   IF cls \notin Classes THEN "ctor:unknown-class"
   ELSE IF InternalExc(o) \/ \E i \in DOMAIN again : InternalExc(again[i]) THEN "ctor:internal-error"
+  \* the data-model parent of a chunk documents ONE refusal (InvalidInputError); a TypeError out of a helper it called with
+  \* a missing bound is not a refusal of the input
+  ELSE IF cls = "PMODEL" /\ ~IsVal(o) /\ o[2] # "InvalidInputError" THEN "ctor:internal-error"
   ELSE IF Valid(cls, a) THEN "ok"                                 \* a value or a documented rejection
   ELSE IF IsVal(o) THEN "ctor:built-from-invalid-input"
   ELSE IF \E i \in DOMAIN again : IsVal(again[i]) THEN "ctor:refusal-not-repeatable"
